@@ -593,3 +593,79 @@ func init() {
 		return []OblResult{structResult("C17.client.frame", "an emitted client method assigns no field of the client and the shared defaultHeaders map is only ranged over or indexed for reading: per-call options can reach call-local state only", uniq(probs))}
 	}
 }
+
+// C14.fileset: both plugins must create the same codec files for the same input. The rule compares, for the two
+// generateFile functions, which generate*File emitters run unconditionally (before the `len(file.Services) == 0`
+// early return) and which run only for files with services.
+func init() {
+	codecEmitters := map[string]bool{"generateInt64EncodingFile": true, "generateEnumEncodingFile": true, "generateNullableEncodingFile": true,
+		"generateEmptyBehaviorEncodingFile": true, "generateTimestampFormatEncodingFile": true, "generateBytesEncodingFile": true,
+		"generateFlattenFile": true, "generateOneofDiscriminatorFile": true, "generateUnwrapFile": true}
+	placement := func(w *World, pkgShort string) (map[string]string, []string) {
+		out := map[string]string{}
+		var probs []string
+		fi := w.LookupFunc(pkgShort + ".Generator.generateFile")
+		if fi == nil {
+			return out, []string{pkgShort + ".Generator.generateFile not found"}
+		}
+		phase := "always"
+		for _, st := range fi.Decl.Body.List {
+			ifs, ok := st.(*ast.IfStmt)
+			if !ok {
+				continue
+			}
+			// the early return for files without services
+			if be, ok := ifs.Cond.(*ast.BinaryExpr); ok && ifs.Init == nil {
+				var b bytes.Buffer
+				printer.Fprint(&b, w.Fset, be)
+				if strings.Contains(b.String(), "len(file.Services) == 0") {
+					phase = "services-only"
+					continue
+				}
+			}
+			ast.Inspect(ifs, func(n ast.Node) bool {
+				if call, ok := n.(*ast.CallExpr); ok {
+					if sel, ok := call.Fun.(*ast.SelectorExpr); ok && codecEmitters[sel.Sel.Name] {
+						if _, dup := out[sel.Sel.Name]; !dup {
+							out[sel.Sel.Name] = phase
+						}
+					}
+				}
+				return true
+			})
+		}
+		return out, probs
+	}
+	structuralRules["c14.fileset"] = func(w *World) []OblResult {
+		h, p1 := placement(w, "httpgen")
+		c, p2 := placement(w, "clientgen")
+		var out []OblResult
+		names := map[string]bool{}
+		for k := range h {
+			names[k] = true
+		}
+		for k := range c {
+			names[k] = true
+		}
+		var keys []string
+		for k := range names {
+			keys = append(keys, k)
+		}
+		sort.Strings(keys)
+		for _, k := range keys {
+			var probs []string
+			probs = append(probs, p1...)
+			probs = append(probs, p2...)
+			switch {
+			case h[k] == "":
+				probs = append(probs, "only the client plugin runs "+k)
+			case c[k] == "":
+				probs = append(probs, "the client plugin has no "+k+": a package generated with the client alone lacks this codec")
+			case h[k] != c[k]:
+				probs = append(probs, fmt.Sprintf("%s runs %s in go-http but %s in go-client: for a file without services only one plugin emits the codec file", k, h[k], c[k]))
+			}
+			out = append(out, structResult("C14.fileset."+strings.TrimSuffix(strings.TrimPrefix(k, "generate"), "File"), "both plugins run "+k+" under the same condition (unconditionally, or only for files with services)", probs))
+		}
+		return out
+	}
+}
